@@ -103,6 +103,22 @@ func (w *World) CtxIssues() []Issue {
 	seen := map[string]bool{}
 	for _, f := range w.Files {
 		for _, c := range skel.Contexts(f.R) {
+			// a value that reaches a back-quoted literal AFTER the emitter cut the text into lines: whatever the emitter writes between
+			// the lines (its indentation) becomes part of the literal's value — the pattern that is matched is not the schema's
+			if c.Kind == "raw-string" {
+				cutAt := -1
+				for i, t := range c.Span.Hole.Tr {
+					if t == "no:\n" {
+						cutAt = i
+					}
+				}
+				key := "cut|" + skel.HoleKey(c.Span.Hole)
+				if cutAt >= 0 && !seen[key] {
+					seen[key] = true
+					out = append(out, Issue{Rule: "A-CTX:cut", Construct: "schema text cut into lines on its way into a back-quoted literal (" + c.Span.Hole.A.Name + ")",
+						Msg: fmt.Sprintf("the text of %s is split at its line breaks and re-assembled by the emitter inside a back-quoted literal (formatted at %s): a value containing a newline is emitted with the emitter's indentation inside it, so the literal's value differs from the schema's", c.Span.Hole.A.Name, c.Span.Hole.SitePos)})
+				}
+			}
 			if p := skel.CtxProblem(c); p != "" {
 				key := c.Kind + "|" + skel.HoleKey(c.Span.Hole)
 				if seen[key] {
